@@ -59,6 +59,7 @@ def variants(topo, rng, n_perm):
     # on the graph and the network is stepped once; then the real elements replace them through the same API calls
     V.append(("decoy-links-stepped-then-replaced", {"decoy": "links"}))
     V.append(("decoy-attachments-stepped-then-replaced", {"decoy": "attach"}))
+    V.append(("turnrates-rescaled-after-a-step", {"rescale_after_step": 2.5}))
     V.append(("renamed", {"rename": lambda s: "zz_" + s[::-1] + "_" + str(len(s))}))
     V.append(("turnrates-scaled", {"scale": True}))
     return V
@@ -125,7 +126,22 @@ def build_decoy_variant(topo, P, kind, first_engine=None):
     return built
 
 
+def build_rescaled_after_step(topo, P, factor, first_engine=None):
+    """fresh network, one step, then every link's turnrate attribute is multiplied by the same factor (no API call)."""
+    import numpy as np
+    from sym_metanet.engines.numpy import Engine as NE
+
+    built = T_.build(topo, P)
+    with np.errstate(all="ignore"):
+        built.net.step(engine=first_engine or NE("rand"), **T_.model_kwargs(topo, P))
+    for l in built.links.values():
+        l.turnrate = factor * l.turnrate
+    return built
+
+
 def build_variant(topo, P, var, first_engine=None):
+    if var.get("rescale_after_step"):
+        return build_rescaled_after_step(topo, P, var["rescale_after_step"], first_engine)
     if var.get("decoy"):
         return build_decoy_variant(topo, P, var["decoy"], first_engine)
     if not var.get("touch"):
